@@ -476,6 +476,17 @@ def install_close(e):
         return t
     e.add(Contract("time:time", assumed=True, result=clock_res, havoc=lambda c, a, old, k: None,
                    doc="time.time(): non-decreasing ghost clock"))
+
+    def mono_res(c, a):
+        t0 = z(c.ghost["mono_clock"], "real") if "mono_clock" in c.ghost else None
+        t = c.fresh("real", "monotonic_now")
+        if t0 is not None:
+            c.assume(t.t >= t0)
+        c.ghost["mono_clock"] = t
+        return t
+    e.add(Contract("time:monotonic", assumed=True, result=mono_res, havoc=lambda c, a, old, k: None,
+                   doc="time.monotonic(): a second non-decreasing clock with an origin unrelated to time.time() (the tree does not call it; "
+                       "modelled so that a change mixing the two clocks is decided rather than left undecided)"))
     e.add(Contract("ext:sock.shutdown", assumed=True, havoc=lambda c, a, old, k: None, raises=[(OSError, None, None)],
                    doc="sock.shutdown(how): may raise OSError; does not release the handle"))
 
